@@ -201,6 +201,20 @@ theorem c13_awaiting_body_has_a_waiter {mode : Bool} {sc : List Act} {s : State}
       · exact Or.inl ⟨rfl, a, b, c⟩
       · exact Or.inr (Or.inr ⟨rfl, a, b, c⟩)
 
+/-- **Asynchronous body** (summary of the two theorems above; the sequence theorems hold for these scripts and schedules like for
+any other): an access is outstanding — the synchronous caller blocked in `_block.wait`, the consumer coroutine parked, the future
+pending — **iff** the body is parked on an awaited operation, and that operation has not completed. -/
+theorem c13_async_body {mode : Bool} {sc : List Act} {s : State} (h : Reachable mode sc s) :
+    (((inSync s = true ∧ s.block = false) ∨ s.cons = .parked ∨ s.fut = .pending) ↔ ∃ k, s.bst = .await k) ∧
+    (∀ k, s.bst = .await k → k ∉ s.resolved) := by
+  refine ⟨⟨fun hw => ?_, fun ⟨k, hk⟩ => ?_⟩, (reachable_inv h).await_unres⟩
+  · obtain ⟨k, hk, _⟩ := c13_waits_only_for_awaited h hw
+    exact ⟨k, hk⟩
+  · rcases c13_awaiting_body_has_a_waiter h k hk with ⟨_, _, a, b⟩ | ⟨_, a⟩ | ⟨_, _, _, a⟩
+    · exact Or.inl ⟨a, b⟩
+    · exact Or.inr (Or.inl a)
+    · exact Or.inr (Or.inr a)
+
 /-- **Asynchronous body, progress.** Completing the operation the body waits for (on any thread) resumes it; afterwards it has
 finished, or is parked at a `co_yield`, or waits for another operation — with a strictly shorter rest of the script (so finitely
 many completions serve the access); and at a `co_yield` / at the end nobody is left waiting (`c13_served_when_parked`). -/
